@@ -187,6 +187,8 @@ class Rel:
         if goal is True:
             return True
         ok, dt = self.prove(s1, s2, goal)
+        if not ok:
+            ok, dt = self.by_congruence(s1, s2, v1, v2, goal)
         if ok:
             self.record(s1, s2, f"{name}@{where}", goal, dt)
             s1.assume(goal, tag="rel:lemma")
@@ -194,6 +196,28 @@ class Rel:
         elif os.environ.get("HDCV_REL_TRACE"):
             print(f"[rel]   not shown similar: {name}@{where}", flush=True)
         return ok
+
+    def by_congruence(self, s1, s2, v1, v2, goal):
+        """both values are applications of the same deterministic function (a loop summary, a callee, np.sum ...): show the
+        arguments equal one by one (small queries) and conclude by congruence, instead of asking for everything at once"""
+        t1 = s1.heap.get(v1.oid) if isinstance(v1, Arr) and v1.view is None else (v1 if z3.is_expr(v1) else None)
+        t2 = s2.heap.get(v2.oid) if isinstance(v2, Arr) and v2.view is None else (v2 if z3.is_expr(v2) else None)
+        if t1 is None or t2 is None or not (z3.is_app(t1) and z3.is_app(t2)) or t1.num_args() == 0:
+            return False, 0.0
+        if t1.decl().kind() != z3.Z3_OP_UNINTERPRETED or not t1.decl().eq(t2.decl()) or t1.num_args() != t2.num_args():
+            return False, 0.0
+        t0 = time.time()
+        x, y = s1.copy(), s2.copy()
+        for a1, a2 in zip(t1.children(), t2.children()):
+            if a1.eq(a2):
+                continue
+            ok, _ = self.prove(x, y, a1 == a2)
+            if not ok:
+                return False, time.time() - t0
+            x.assume(a1 == a2)
+            y.assume(a1 == a2)
+        ok, _ = self.prove(x, y, goal)
+        return ok, time.time() - t0
 
     def obligation(self, s1, s2, kind, name, goal):
         """an obligation that is not decided on the spot: discharged by the portfolio with everything else; assumed to continue"""
@@ -214,8 +238,12 @@ def exec_pair(rel, stmts, s1, s2):
                     (nxt if r[2] == NORMAL else done).append(r if r[2] != NORMAL else (r[0], r[1]))
                 continue
             if isinstance(stmt, ast.If):
+                glog = ex.ctx.__dict__.setdefault("restrict_log", [])
+                g0 = len(glog)
                 c1 = ex.truthy(ex.eval(stmt.test, a))
+                g1 = len(glog)
                 c2 = ex.truthy(ex.eval(stmt.test, b))
+                g2 = len(glog)
                 if isinstance(c1, bool) and isinstance(c2, bool):
                     if c1 != c2:
                         raise Unsupported("guards differ concretely in the two runs")
@@ -224,6 +252,24 @@ def exec_pair(rel, stmts, s1, s2):
                     continue
                 c1, c2 = zbool(c1), zbool(c2)
                 same, dt = rel.prove(a, b, c1 == c2)
+                if not same and g1 - g0 == g2 - g1 and g1 > g0:
+                    # the guards apply deterministic functions to arrays (np.max(np.abs(r_sel)) ...): pair the restricted arguments
+                    got = False
+                    a2, b2 = a.copy(), b.copy()
+                    for (k1, nd1), (k2, nd2) in zip(glog[g0:g1], glog[g1:g2]):
+                        if nd1 != nd2 or k1.sort() != k2.sort() or k1.eq(k2):
+                            continue
+                        ks = [z3.Int(f"k!rq{i}") for i in range(nd1)]
+                        cell = z3.ForAll(ks, sel(k1, *ks) == sel(k2, *ks))
+                        okc, dtc = rel.prove(a2, b2, cell)
+                        if not okc:
+                            break
+                        rel.record(a2, b2, f"restricted@L{stmt.lineno}.guard", cell, dtc)
+                        a2.assume(k1 == k2, tag="rel:lemma")
+                        b2.assume(k1 == k2, tag="rel:lemma")
+                        got = True
+                    if got:
+                        same, dt = rel.prove(a2, b2, c1 == c2)
                 combos = [(True, True), (False, False)] if same else [(True, True), (True, False), (False, True), (False, False)]
                 if same:
                     rel.record(a, b, f"guard@L{stmt.lineno}", c1 == c2, dt)
@@ -252,21 +298,29 @@ def exec_pair(rel, stmts, s1, s2):
             n1 = len(log)
             r2 = ex.exec_stmt(stmt, b)
             n2 = len(log)
-            if n1 - n0 == n2 - n1 and n1 > n0 and len(r1) == 1 and len(r2) == 1:
-                # arrays that the two runs handed to deterministic functions (np.sum, np.median, callees) in this statement, in
-                # evaluation order: show each pair equal cell by cell and record the equality of the restricted arrays themselves
-                # (extensionality), so that nested applications  f(g(x))  are equal by congruence instead of by a search
+            def pair_restricted(x, y):
+                """arrays that the two runs handed to deterministic functions (np.sum, np.median, callees) in this statement, in
+                evaluation order: show each pair equal cell by cell and record the equality of the restricted arrays themselves
+                (extensionality), so that nested applications f(g(x)) are equal by congruence instead of by a search.  Used only when
+                a similarity is not found without it (the extra array equalities slow other queries down)."""
+                if not (n1 - n0 == n2 - n1 and n1 > n0):
+                    return False
+                got = False
                 for (c1, nd1), (c2, nd2) in zip(log[n0:n1], log[n1:n2]):
                     if nd1 != nd2 or c1.sort() != c2.sort() or c1.eq(c2):
                         continue
                     ks = [z3.Int(f"k!rq{i}") for i in range(nd1)]
                     cell = z3.ForAll(ks, sel(c1, *ks) == sel(c2, *ks))
-                    ok, dt = rel.prove(r1[0][0], r2[0][0], cell)
+                    ok, dt = rel.prove(x, y, cell)
+                    if os.environ.get("HDCV_REL_TRACE"):
+                        print(f"[rel]   pairing at L{stmt.lineno}: {c1} ~ {c2}: {'equal' if ok else 'open'} ({dt:.2f}s)", flush=True)
                     if not ok:
                         break
-                    rel.record(r1[0][0], r2[0][0], f"restricted@L{stmt.lineno}", cell, dt)
-                    r1[0][0].assume(c1 == c2, tag="rel:lemma")
-                    r2[0][0].assume(c1 == c2, tag="rel:lemma")
+                    rel.record(x, y, f"restricted@L{stmt.lineno}", cell, dt)
+                    x.assume(c1 == c2, tag="rel:lemma")
+                    y.assume(c1 == c2, tag="rel:lemma")
+                    got = True
+                return got
             assigned, stored = scan_modified([stmt])
             for (x, o1) in r1:
                 for (y, o2) in r2:
@@ -275,8 +329,21 @@ def exec_pair(rel, stmts, s1, s2):
                     if len(r1) > 1 or len(r2) > 1:
                         x, y = x.copy(), y.copy()
                     if o1.kind == NORMAL:
-                        for nm in sorted(assigned | stored):
-                            rel.similar(x, y, nm, f"L{stmt.lineno}")
+                        open_ = [nm for nm in sorted(assigned | stored) if not rel.similar(x, y, nm, f"L{stmt.lineno}") and nm in x.env and nm in y.env]
+                        if open_ and len(r1) == 1 and len(r2) == 1:
+                            # the array equalities are scaffolding: they live in scratch copies of the two states, only the similarity
+                            # of the assigned variables is carried forward
+                            x2, y2 = x.copy(), y.copy()
+                            if pair_restricted(x2, y2):
+                                for nm in open_:
+                                    g = rel.sim_goal(x2, y2, x2.env[nm], y2.env[nm])
+                                    if g is None or g is True:
+                                        continue
+                                    ok, dt = rel.prove(x2, y2, g)
+                                    if ok:
+                                        rel.record(x2, y2, f"{nm}@L{stmt.lineno}+", g, dt)
+                                        x.assume(g, tag="rel:lemma")
+                                        y.assume(g, tag="rel:lemma")
                         nxt.append((x, y))
                     elif o1.kind == RETURN:
                         done.append((x, y, RETURN, o1.value, o2.value))
